@@ -9,7 +9,7 @@ rc=0
 for id in "$@"; do
   out=$(cd /verif && ./check "$id" --tier quick 2>&1)
   code=$?
-  echo "$out" | grep -E "^(VIOLATION|  violation|KNOWN|harness build failed)" | head -4
+  printf "%s\n" "$out" | grep -E "^(VIOLATION|  violation|KNOWN|harness build failed)" | head -4
   echo "== $id exit=$code"
   [ $code -eq 1 ] && rc=1
 done
